@@ -52,6 +52,13 @@ fn obj_text(rng: &mut Rng, i: usize, distinct: bool, stats: &mut Stats) -> Strin
     if distinct {
         return format!("\"{}v\"", i);
     }
+    if rng.chance(1, 7) {
+        // punctuation that is syntax elsewhere in the line, inside a term
+        stats.hit("obj_tricky_content");
+        let lits = ["Approved. #1 choice", "a . b", "x # y", "semi; colon", "com, ma", "<angle>", "at @en", "hat ^^ hat", "_:b", "dot.", "#", " lead", "trail ", "tab\\tsep", "a .# b"];
+        let iris = ["http://e/spec/v1.#intro", "http://e/a#b", "http://e/a;b", "http://e/a,b", "http://e/q?x=1&y=2", "http://e/p.", "http://e/%20x", "http://e/~u"];
+        return if rng.chance(1, 2) { format!("\"{}\"", rng.pick(&lits)) } else { format!("<{}>", rng.pick(&iris)) };
+    }
     match rng.below(6) {
         0 => {
             stats.hit("obj_iri");
@@ -217,6 +224,33 @@ impl Prop for C13 {
                     let toks: Vec<String> = prior.iter().map(show_quad_tok).collect();
                     out.push(format!("load {} {} {}{}", fmt, threads, hex(&doc), with_sp(&toks)));
                     stats.hit(&format!("boundary_doc_{}_lines", n));
+                }
+            }
+        }
+        // statements far longer than any I/O or work-splitting window (a WKT geometry, a base64 literal, a long IRI)
+        let lens: &[usize] = if tier == Tier::Quick { &[70_000] } else { &[65_535, 65_536, 70_000] };
+        for &len in lens {
+            for fmt in FMTS {
+                for where_ in [0usize, 3, 6] {
+                    if tier == Tier::Quick && where_ != 3 {
+                        continue;
+                    }
+                    k += 1;
+                    let mut rng = Rng::fork(7, "load-long", k);
+                    let mut doc = String::new();
+                    for i in 0..7 {
+                        if i == where_ {
+                            if rng.chance(1, 3) {
+                                doc.push_str(&format!("<http://e/s{}> <http://e/p1> <http://e/{}> .\n", i, "i".repeat(len)));
+                            } else {
+                                doc.push_str(&format!("<http://e/s{}> <http://e/p1> \"{}\" .\n", i, "x".repeat(len)));
+                            }
+                        } else {
+                            doc.push_str(&format!("<http://e/s{}> <http://e/p0> \"{}v\" .\n", i, i));
+                        }
+                    }
+                    out.push(format!("load {} {} {}", fmt, [0usize, 2][(k % 2) as usize], hex(&doc)));
+                    stats.hit("long_statement_doc");
                 }
             }
         }
